@@ -1,6 +1,7 @@
 package rt
 
 import (
+	"bytes"
 	"crypto/cipher"
 
 	gcipher "github.com/emmansun/gmsm/cipher"
@@ -116,6 +117,17 @@ func newModeObj(st Step, env *Env) *modeObj {
 	if err != nil {
 		panic("harness: mode construction failed: " + err.Error())
 	}
+	// siblings: further objects made from the same Block afterwards (and dropped) - objects derived from one parent are independent
+	if b.BlockSize() == 16 {
+		other := bytes.Repeat([]byte{0x5C}, 16)
+		_ = cipher.NewCBCEncrypter(b, other)
+		_ = cipher.NewCBCDecrypter(b, other)
+		_ = cipher.NewCTR(b, other)
+		_ = cipher.NewCFBEncrypter(b, other)
+		_ = cipher.NewOFB(b, other)
+		_ = gcipher.NewECBEncrypter(b)
+		_, _ = cipher.NewGCM(b)
+	}
 	return o
 }
 
@@ -153,15 +165,19 @@ func init() {
 				if st.Has("buf") {
 					buf = st.Str("buf")
 				}
-				atEnd := buf[1] == 'e'
+				atEnd := buf[1] == 'e' || buf == "dl"
 				src := guard.Alloc(len(in), atEnd)
 				copy(src.B, in)
 				dst := src
 				if buf[0] == 'd' {
 					dst = guard.Alloc(len(in), atEnd)
 				}
+				if buf == "dl" { // a destination longer than the source (every mode interface admits it): the result is its first len(src) bytes
+					dst.Free()
+					dst = guard.Alloc(len(in)+9, true)
+				}
 				o.run(dst.B, src.B)
-				mm := Diff(i, dst.B, exp)
+				mm := Diff(i, dst.B[:len(in)], exp)
 				if mm == nil && buf[0] == 'd' {
 					if mm = Diff(i, src.B, in); mm != nil {
 						mm.Note = "the call modified its source buffer"
